@@ -31,6 +31,7 @@ type SpecEnv struct {
 	loop    *loopInfo
 	inOld   bool
 	depth   int
+	payload map[string]types.Type
 }
 
 var untypedInt = types.Typ[types.UntypedInt]
@@ -488,10 +489,49 @@ func (ev *SpecEnv) index(base TV, ie SExpr) TV {
 	return TV{}
 }
 
+// ghostPlace: ghost(name, ref) is a ghost integer field `name` of the object / interface value `ref`.
+func (ev *SpecEnv) ghostPlace(n *SCall) *Place {
+	x := ev.x
+	if len(n.Args) != 2 {
+		unsupp("ghost(name, ref) takes two arguments")
+	}
+	id, ok := n.Args[0].(*SIdent)
+	if !ok {
+		unsupp("ghost: first argument must be a field name")
+	}
+	gt := x.ghostTypes[id.Name]
+	if gt == nil {
+		gt = types.NewNamed(types.NewTypeName(0, nil, "ghost_"+id.Name, nil), types.Typ[types.Int], nil)
+		x.ghostTypes[id.Name] = gt
+	}
+	if w, isId := n.Args[1].(*SIdent); isId && w.Name == "_" {
+		return &Place{kind: pkHeap, ref: nil, obj: gt}
+	}
+	r := ev.eval(n.Args[1])
+	ref, ok := x.asComparable(r.v).(*Term)
+	if !ok {
+		unsupp("ghost: second argument must be a reference")
+	}
+	return &Place{kind: pkHeap, ref: ref, obj: gt}
+}
+
+func (ev *SpecEnv) ghostPlaceRef(n *SCall, ref *Term) *Place {
+	p := ev.ghostPlace(n)
+	if p.ref == nil {
+		p.ref = ref
+	}
+	return p
+}
+
 // evalPlace evaluates an expression denoting a memory location (for modifies).
 func (ev *SpecEnv) evalPlace(e SExpr) *Place {
 	x := ev.x
 	switch n := e.(type) {
+	case *SCall:
+		if id, ok := n.Fun.(*SIdent); ok && id.Name == "ghost" {
+			return ev.ghostPlace(n)
+		}
+		return nil
 	case *SSel:
 		base := ev.eval(n.X)
 		if pt, ok := base.t.Underlying().(*types.Pointer); ok {
@@ -681,6 +721,23 @@ func (ev *SpecEnv) call(n *SCall) TV {
 		case *Term:
 			return TV{x.intLt(v, ev.old.alloc), boolT}
 		}
+	case "at":
+		// at(s, p): element of slice s's backing array at absolute position p (p ranges over s.off .. s.off+len(s)-1)
+		a := ev.eval(n.Args[0])
+		sl, ok := a.v.(*SliceV)
+		if !ok {
+			unsupp("spec: at(s, p) needs a slice")
+		}
+		et := a.t.Underlying().(*types.Slice).Elem()
+		pl := &Place{kind: pkElem, arr: sl.arr, idx: ev.evalInt(n.Args[1]), elem: et}
+		return TV{x.load(ev.state(), pl), et}
+	case "box":
+		// the interface value holding this (single-scalar) value, as Go's implicit conversion builds it
+		a := ev.eval(n.Args[0])
+		return TV{x.makeInterface(nil, ev.state(), a.v, a.t), types.NewInterfaceType(nil, nil)}
+	case "ghost":
+		p := ev.ghostPlace(n)
+		return TV{x.load(ev.state(), p), p.obj}
 	case "bytesEq":
 		a, b := ev.eval(n.Args[0]), ev.eval(n.Args[1])
 		return TV{ev.seqEq(a, b), boolT}
